@@ -534,8 +534,15 @@ static inline struct ubuf *ubuf_block_splice(struct ubuf *ubuf, int offset,
                                              int size)
 {
     struct ubuf *new_ubuf;
-    if (unlikely(ubuf->mgr->signature != UBUF_ALLOC_BLOCK ||
-                 (ubuf = ubuf_block_get(ubuf, &offset, &size)) == NULL ||
+    if (unlikely(ubuf->mgr->signature != UBUF_ALLOC_BLOCK))
+        return NULL;
+    struct ubuf_block *head_block = ubuf_block_from_ubuf(ubuf);
+    int abs_offset = offset < 0 ? offset + (int)head_block->total_size : offset;
+    if (unlikely(abs_offset < 0 || size < -1 ||
+                 (size != -1 &&
+                  (size_t)abs_offset + size > head_block->total_size)))
+        return NULL;
+    if (unlikely((ubuf = ubuf_block_get(ubuf, &offset, &size)) == NULL ||
                  !ubase_check(ubuf_control(ubuf, UBUF_SPLICE_BLOCK,
                                            &new_ubuf, offset, size))))
         return NULL;
